@@ -716,6 +716,21 @@ def programs_debug(tier):
         F("parity", T_bool(), (12, 1)), F("enable", T_bool(), (15, 1))], debug=True)], props=("C19",)))
     progs.append(Program("dbg12", structs=[S("dbg12", 12, [
         F("a", T_u(12), (0, 12))], debug=True)], props=("C19",)))
+    # native-execution only ("C19n": too wide for the Kani part): whole-register signed fields (a Debug that borrows the storage prints
+    # the unsigned raw value, seed C19-l) and 128-bit native fields (a "64-bit fast path" in Debug, seed C19-k)
+    progs.append(Program("dbgw", structs=[
+        S("dbgw8", 8, [F("t", T_i(8), (0, 8))], debug=True, name="Sdbgw8"),
+        S("dbgw16", 16, [F("celsius", T_i(16), (0, 16))], debug=True, name="Sdbgw16"),
+        S("dbgw64", 64, [F("a", T_i(64), (0, 64))], debug=True, name="Sdbgw64"),
+        S("dbgw32", 32, [F("lo", T_u(16), (0, 16)), F("hi", T_i(16), (16, 16))], debug=True, name="Sdbgw32"),
+    ], props=("C19n",)))
+    progs.append(Program("dbgw128", structs=[
+        S("dbgi128", 128, [F("v", T_i(128), (0, 128))], debug=True, name="Sdbgi128"),
+        S("dbgu128", 128, [F("u", T_u(128), (0, 128))], debug=True, name="Sdbgu128"),
+        S("dbgl128", 128, [F("x", T_i(128), [(64, 64), (0, 64)])], debug=True, name="Sdbgl128"),
+        S("dbgm128", 128, [F("a", T_i(64), (64, 64)), F("b", T_u(64), (0, 64))], debug=True, name="Sdbgm128"),
+        S("dbg100", 100, [F("top", T_i(64), (36, 64)), F("k", T_u(36), (0, 36))], debug=True, name="Sdbg100"),
+    ], props=("C19n",)))
     if tier == "thorough":
         e3 = mk_enum("Edb3", 3, "false", values=[7, 0, 5])
         progs.append(Program("dbg32", enums=[e3], structs=[S("dbg32", 32, [
